@@ -980,6 +980,27 @@ impl World for ThreadsWorld {
             knobs.insert("pct_d".into(), rng.range(1, 3));
         }
         let mut next_arg = 1u64;
+        if ask.prop == "C18" && index % 4 == 3 {
+            // A share of ordinary concurrent runs with many updates, so that a
+            // reader is lapped several times within one snapshot: the reader-side
+            // invariants of C18 (no lock operation, no spurious retry) are judged
+            // on every snapshot of every run.
+            knobs.insert("threads".into(), 3);
+            knobs.insert("policy".into(), *rng.pick(&[2u64, 4, 0]));
+            for _ in 0..rng.range(4, 7) {
+                ops.push(Op::new("call", [0, 1, next_arg, 0]));
+                next_arg += 1;
+            }
+            if rng.chance(1, 2) {
+                ops.push(Op::new("freeze", [0, rng.range(20, 56), 0, 0]));
+            }
+            for r in 1..3u64 {
+                for _ in 0..rng.range(1, 3) {
+                    ops.push(Op::new("call", [r, 0, 0, 0]));
+                }
+            }
+            return Plan { world: "threads", mode: "lapping".into(), seed, index, knobs, ops };
+        }
         if ask.prop == "C18" {
             // Exact step counts need sequential consistency (under the view
             // model a solo reader may legitimately see a stale sequence first).
@@ -993,6 +1014,10 @@ impl World for ThreadsWorld {
             knobs.insert("solo_mask".into(), (0b11u64) << nw);
             for w in 0..nw {
                 let ncalls = rng.range(1, 3);
+                if rng.chance(1, 4) {
+                    // An earlier caller error: the lock was poisoned by a panic.
+                    ops.push(Op::new("badcall", [w as u64, rng.below(2), 7 + next_arg, 0]));
+                }
                 for _ in 0..ncalls {
                     let kind = if rng.chance(2, 3) { 1 } else { 2 };
                     ops.push(Op::new("call", [w as u64, kind, next_arg, 0]));
